@@ -5,7 +5,7 @@ patch=$1; prop=$2; tier=${3:-quick}
 cd /repo || exit 2
 if ! git diff --quiet; then echo "repo dirty"; exit 2; fi
 git apply "$patch" || { echo "patch does not apply"; exit 2; }
-/verif/bin/govc check --property "$prop" --tier "$tier"
+GOVC_NO_EVIDENCE=1 /verif/bin/govc check --property "$prop" --tier "$tier"
 rc=$?
 git checkout -- . 
 echo "exit=$rc"
